@@ -214,8 +214,10 @@ def rooted_at_param(t, i):
 # ---------------------------------------------------------------- iterators, elements
 
 ITER_CTORS = {'iter', 'iter_mut', 'into_iter', 'keys', 'values', 'values_mut', 'into_keys', 'into_values', 'drain'}
-ITER_SAME_ITEMS = {'rev', 'skip', 'take', 'filter', 'skip_while', 'take_while', 'peekable', 'fuse', 'by_ref',
-                   'cloned', 'copied', 'inspect', 'step_by', 'chain'}
+# adaptors that yield the very items of the iterator they wrap.  The positional ones (skip, take, step_by, skip_while,
+# take_while) are NOT listed: an iterator behind them is a different collection, so `iter_source` stops there and every
+# recogniser that expects "all of self.x" fails closed instead of having to remember to ask `iter_adaptors`.
+ITER_SAME_ITEMS = {'rev', 'filter', 'peekable', 'fuse', 'by_ref', 'cloned', 'copied', 'inspect', 'chain'}
 
 
 def as_item(t):
